@@ -46,8 +46,60 @@ def effect_free(e):
 def dump(n):
     if isinstance(n, list):
         return "[" + ", ".join(dump(x) for x in n) + "]"
-    n = _nest_withs(strip_ctx(copy.deepcopy(n)))
+    n = _hoist_declarations(_nest_withs(strip_ctx(copy.deepcopy(n))))
     return ast.dump(n, annotate_fields=True, include_attributes=False)
+
+
+def _hoist_declarations(n):
+    """R12 (canonical form used by every comparison): global/nonlocal declarations hold for the whole function wherever they are
+    written (Language Reference 7.12): every function is written with its declarations in front (after the docstring), sorted, and
+    a `pass` where a nested one stood (other `pass` statements of a non-trivial block are dropped as well)."""
+    def own_blocks(stmt):
+        for field in ("body", "orelse", "finalbody", "handlers", "cases"):
+            sub = getattr(stmt, field, None)
+            if isinstance(sub, list):
+                yield field, sub
+
+    def strip(stmts, found, top):
+        out = []
+        for st in stmts:
+            if isinstance(st, (ast.Global, ast.Nonlocal)):
+                found.append(st)
+                continue
+            if isinstance(st, ast.Pass) and not top:
+                continue
+            if isinstance(st, (ast.FunctionDef, ast.AsyncFunctionDef)):
+                canon_fn(st)
+            elif not isinstance(st, ast.ClassDef):
+                for field, sub in own_blocks(st):
+                    if field in ("handlers", "cases"):
+                        for h in sub:
+                            h.body = strip(h.body, found, False) or [ast.Pass()]
+                    else:
+                        new = strip(sub, found, False)
+                        setattr(st, field, new or ([ast.Pass()] if field == "body" else []))
+            out.append(st)
+        return out
+
+    def canon_fn(fn):
+        found = []
+        body = strip(fn.body, found, True)
+        doc = []
+        if body and isinstance(body[0], ast.Expr) and isinstance(body[0].value, ast.Constant) and isinstance(body[0].value.value, str):
+            doc, body = [body[0]], body[1:]
+        globs = sorted({x for d in found if isinstance(d, ast.Global) for x in d.names})
+        nonl = sorted({x for d in found if isinstance(d, ast.Nonlocal) for x in d.names})
+        decls = ([ast.Global(names=globs)] if globs else []) + ([ast.Nonlocal(names=nonl)] if nonl else [])
+        fn.body = doc + decls + body or [ast.Pass()]
+
+    if isinstance(n, (ast.FunctionDef, ast.AsyncFunctionDef)):
+        canon_fn(n)
+    elif isinstance(n, ast.AST):
+        for ch in ast.walk(n):
+            if isinstance(ch, (ast.FunctionDef, ast.AsyncFunctionDef)):
+                canon_fn(ch)
+                break
+    return n
 
 
 def _nest_withs(n):
